@@ -216,9 +216,79 @@ pub fn ref_print_braced(v: &Value) -> String {
 
 // ---------------------------------------------------------------- lexical classes / skeleton
 
+/// The Recon identifier grammar (harness-side copy of the specification's character ranges).
+pub fn spec_ident_start(c: char) -> bool {
+    matches!(c, 'A'..='Z' | 'a'..='z' | '_' | '\u{b7}' | '\u{c0}'..='\u{d6}' | '\u{d8}'..='\u{f6}' | '\u{f8}'..='\u{37d}'
+        | '\u{37f}'..='\u{1fff}' | '\u{200c}'..='\u{200d}' | '\u{203f}'..='\u{2040}' | '\u{2070}'..='\u{218f}'
+        | '\u{2c00}'..='\u{2fef}' | '\u{3001}'..='\u{d7ff}' | '\u{f900}'..='\u{fdcf}' | '\u{fdf0}'..='\u{fffd}'
+        | '\u{10000}'..='\u{effff}')
+}
+
+pub fn spec_ident_char(c: char) -> bool {
+    spec_ident_start(c) || c == '-' || c.is_ascii_digit()
+}
+
+/// Class of an attribute name: can it be written as a bare identifier after `@`?
+pub fn name_class(s: &str) -> &'static str {
+    let mut cs = s.chars();
+    match cs.next() {
+        Some(c) if spec_ident_start(c) && cs.all(spec_ident_char) => "identifier",
+        _ => "non_identifier",
+    }
+}
+
+/// Injective compact encoding of a value (cache key).
+pub fn canon(v: &Value) -> String {
+    fn go(v: &Value, o: &mut String) {
+        use std::fmt::Write;
+        match v {
+            Value::Extant => o.push('E'),
+            Value::Int32Value(n) => write!(o, "i{};", n).unwrap(),
+            Value::Int64Value(n) => write!(o, "l{};", n).unwrap(),
+            Value::UInt32Value(n) => write!(o, "u{};", n).unwrap(),
+            Value::UInt64Value(n) => write!(o, "U{};", n).unwrap(),
+            Value::Float64Value(x) => write!(o, "f{:x};", x.to_bits()).unwrap(),
+            Value::BooleanValue(b) => o.push(if *b { 'T' } else { 'F' }),
+            Value::BigInt(n) => write!(o, "b{};", n).unwrap(),
+            Value::BigUint(n) => write!(o, "B{};", n).unwrap(),
+            Value::Text(t) => write!(o, "t{}:{}", t.as_str().len(), t.as_str()).unwrap(),
+            Value::Data(d) => {
+                write!(o, "d{}:", d.as_ref().len()).unwrap();
+                for b in d.as_ref() {
+                    write!(o, "{:02x}", b).unwrap();
+                }
+            }
+            Value::Record(attrs, items) => {
+                write!(o, "R{},{}(", attrs.len(), items.len()).unwrap();
+                for a in attrs {
+                    write!(o, "{}:{}", a.name.as_str().len(), a.name.as_str()).unwrap();
+                    go(&a.value, o);
+                }
+                for i in items {
+                    match i {
+                        Item::ValueItem(x) => {
+                            o.push('V');
+                            go(x, o);
+                        }
+                        Item::Slot(k, x) => {
+                            o.push('S');
+                            go(k, o);
+                            go(x, o);
+                        }
+                    }
+                }
+                o.push(')');
+            }
+        }
+    }
+    let mut s = String::new();
+    go(v, &mut s);
+    s
+}
+
 pub fn text_class(s: &str) -> &'static str {
-    let ident_start = |c: char| c.is_ascii_alphabetic() || c == '_' || !c.is_ascii();
-    let ident_char = |c: char| ident_start(c) || c.is_ascii_digit() || c == '-';
+    let ident_start = spec_ident_start;
+    let ident_char = spec_ident_char;
     if s.is_empty() {
         "empty"
     } else if s == "true" || s == "false" {
@@ -269,7 +339,7 @@ pub fn skeleton(v: &Value) -> String {
         Value::Record(attrs, items) => {
             let mut s = String::new();
             for a in attrs {
-                s.push_str(&format!("@<{}>", text_class(a.name.as_str())));
+                s.push_str(&format!("@<{}>", name_class(a.name.as_str())));
                 if !matches!(a.value, Value::Extant) {
                     s.push('(');
                     s.push_str(&skeleton(&a.value));
